@@ -166,6 +166,9 @@ impl Gen {
         s
     }
 
+    pub fn int_any(&mut self) -> u64 {
+        self.int_boundary()
+    }
     fn int_boundary(&mut self) -> u64 {
         let r = &mut self.rng;
         match r.below(6) {
